@@ -184,6 +184,7 @@ def run(ctx):
 
     # ---- R3 ----------------------------------------------------------------------
     _located(ctx)
+    _helpers_locate_fresh_only(ctx, 'C05.R3')
 
     # ---- R4 ----------------------------------------------------------------------
     _module_prefix(ctx)
@@ -210,8 +211,13 @@ def run(ctx):
            f'calls: {sorted(x for x in calls if x and x.startswith("beartype_"))}')
 
     # ---- R7 ----------------------------------------------------------------------
-    ctx.rule('C05.R7', 'the decorator-placement dispatch covers every BeartypeDecorPlace member and, on every path '
-             'of every arm (including the decorator-hostile scan), inserts exactly one decorator')
+    ctx.rule('C05.R7', 'decorator placement: the dispatch covers every BeartypeDecorPlace member; and, interpreted over {def, '
+             'async def, class} × (position for classes, position for callables) × existing decorator lists (none, plain, '
+             'decorator-hostile leading / trailing) × {default, other configuration}: exactly one decorator is inserted — '
+             'for a class where claw_decor_place_type says, for a (coroutine) function where claw_decor_place_func says: '
+             'FIRST = innermost, LAST = outermost, LAST_BEFORE_DECOR_HOSTILE = below the leading decorator-hostile '
+             'decorators — a bare name under the default configuration, a call carrying the configuration otherwise; '
+             'existing decorators keep their order')
     im = repo.mod('beartype.claw._ast._kind.clawastimport')
     dn = repo.find_def(im.name, 'BeartypeNodeTransformerImportMixin._decorate_node_beartype')
     enum = ctx.folder.const('beartype._conf.decorplace.confplaceenum', 'BeartypeDecorPlace')
@@ -225,35 +231,7 @@ def run(ctx):
     ctx.ob('C05.R7', 'placement:total', im.where(dn), 'every BeartypeDecorPlace member has an arm',
            members == tested and len(members) >= 3, f'members {sorted(members)}, arms {sorted(tested)}')
 
-    def ev(node):
-        out = []
-        for x in ([node] if not isinstance(node, ast.stmt) else ast.walk(node)):
-            if isinstance(x, ast.Call) and isinstance(x.func, ast.Attribute) and norm(x.func.value) == 'node.decorator_list' \
-                    and x.func.attr in ('insert', 'append'):
-                out.append('ins')
-            if isinstance(x, ast.Call) and dotted(x.func) in helper_calls:
-                out.append('helper')
-        return out
-    # helpers of the dispatch are found by role: methods of the same class that an arm of the dispatch calls
-    # with the decorator node (whatever they are called)
-    icls = repo.find_def(im.name, 'BeartypeNodeTransformerImportMixin')
-    own = {f.name for f in icls.body if isinstance(f, ast.FunctionDef)}
-    helper_calls = set()
-    for c in walk_shallow(dn):
-        if isinstance(c, ast.Call) and isinstance(c.func, ast.Attribute) and dotted(c.func.value) == 'self' and c.func.attr in own \
-                and any(k.arg == 'node_beartype_decorator' or dotted(k.value) == 'node_beartype_decorator' for k in c.keywords):
-            helper_calls.add(f'self.{c.func.attr}')
-    for fname in ['_decorate_node_beartype'] + sorted(h.split('.', 1)[1] for h in helper_calls):
-        fn = repo.find_def(im.name, f'BeartypeNodeTransformerImportMixin.{fname}')
-        try:
-            paths = enumerate_paths(fn.body, ev)
-        except OverflowError:
-            ctx.require(False, f'{fname}: too many paths')
-        bad = [(e, s) for e, s in paths if s != 'raise' and len(e) != 1]
-        role = 'dispatch' if fname == '_decorate_node_beartype' else 'decorator-hostile-helper'
-        ctx.ob('C05.R7', f'placement:{role}:exactly-one-insertion', im.where(fn),
-               f'every non-raising path of {fname} inserts the decorator exactly once ({len(paths)} paths)',
-               not bad, f'a path performs {len(bad[0][0]) if bad else 0} insertions')
+    _placement(ctx)
 
 
 def _located(ctx):
@@ -367,6 +345,27 @@ class _ANode(AObj):
 
 
 _EXPR_KINDS = {'Name', 'Attribute', 'Subscript', 'Call', 'Constant', 'Tuple', 'List', 'Starred', 'BinOp', 'NamedExpr'}
+
+
+def _subnodes(n):
+    """The abstract node and every abstract node below it."""
+    out, todo = [], [n]
+    while todo:
+        x = todo.pop()
+        if isinstance(x, _ANode):
+            if any(x is y for y in out):
+                continue
+            out.append(x)
+            todo.extend(vars(x).values())
+        elif isinstance(x, (list, tuple)):
+            todo.extend(x)
+        elif isinstance(x, dict):
+            todo.extend(v for k, v in x.items() if k != 'node_sibling')      # (the location donor is not a child)
+    return out
+
+
+def _reachable(nodes):
+    return {id(x) for n in nodes for x in _subnodes(n)}
 
 
 class _Scopes(AObj):
@@ -643,18 +642,20 @@ def _annassign(ctx):
                 return BoundMethod(self, f_)
             raise AttributeError(name)
     n = 0
+    single = {}
     try:
         # target kinds of the grammar; an attribute target is taken with every kind of parent expression
         for tkind in ('Name', 'Attribute', 'Attribute(of Attribute)', 'Attribute(of Subscript)', 'Attribute(of Call)', 'Subscript'):
             for opt in (True, False):
                 for has_value in (True, False):
-                    for cls_scope in (True, False):
+                    for scope in ('class', 'module', 'function'):
+                        cls_scope = scope == 'class'
                         n += 1
                         s = _Self()
                         s._conf = AConf(claw_is_pep526=opt)
                         s._module_name = 'pkg.mod'
                         sc = _Scopes()
-                        sc.is_scope_class, sc.is_scope_module = cls_scope, not cls_scope
+                        sc.is_scope_class, sc.is_scope_module = cls_scope, scope == 'module'
                         s._scopes = sc
                         s.generic_visit = lambda node: node
                         s.map_node_attr_imported_to_assigned = lambda **k: None
@@ -662,8 +663,10 @@ def _annassign(ctx):
                         pk = tkind[len('Attribute(of '):-1] if '(' in tkind else 'Name'
                         par = _ANode(pk, id='o', attr='b', value=_ANode('Name', id='p'), slice=_ANode('Constant'),
                                      func=_ANode('Name', id='f'), args=[], keywords=[])
-                        tgt = _ANode(tkind.split('(')[0], id='v', attr='a', value=par, slice=_ANode('Constant'))
-                        node = _ANode('AnnAssign', target=tgt, annotation=_ANode('Name', id='int'),
+                        tgt = _ANode(tkind.split('(')[0], id='v', attr='a', value=par,
+                                     slice=_ANode('Call', func=_ANode('Name', id='k'), args=[], keywords=[]))
+                        hint = _ANode('Subscript', value=_ANode('Name', id='list'), slice=_ANode('Name', id='int'))
+                        node = _ANode('AnnAssign', target=tgt, annotation=hint,
                                       value=_ANode('Constant') if has_value else None)
                         del made[:]
                         try:
@@ -678,14 +681,222 @@ def _annassign(ctx):
                         else:
                             ok = out is node
                             detail = f'returns {out!r}'
-                        ctx.ob('C05.R5', f'annassign:{tkind}:pep526={opt}:value={has_value}:class_scope={cls_scope}',
+                        ctx.ob('C05.R5', f'annassign:{tkind}:pep526={opt}:value={has_value}:class_scope={cls_scope}' + (':scope=function' if scope == 'function' else ''),
                                'beartype/claw/_ast/_kind/clawastassign.py:0',
                                'a check is appended exactly when the assignment has a value, the option is on and '
                                'the scope is not a class body', ok, detail)
+                        if isinstance(out, (list, tuple)) and len(out) >= 2:
+                            # R9: which original sub-expressions does the injected statement evaluate again?
+                            reached = _reachable(list(out[1:]))
+                            again = {}
+                            for role, orig in (('annotation', hint), ('target-object', par), ('target-index', tgt.slice)):
+                                for o_ in _subnodes(orig):
+                                    if id(o_) in reached and o_.kind not in ('Name', 'Constant'):
+                                        again.setdefault(role, o_)
+                            single.setdefault(('annotation', f'{scope}-scope'), []).append(
+                                (tkind, again.get('annotation')))
+                            single.setdefault(('target', tkind), []).append((tkind, again.get('target-object') or again.get('target-index')))
     finally:
         F.stubs.clear()
         F.stubs.update(saved_stubs)
         F.isinstance_hook = saved_inst
         F.ext_stubs.clear()
         F.ext_stubs.update(saved_ext)
-    ctx.floor('C05.R5', n, 48, 'target kind × option × value × scope cases')
+    ctx.floor('C05.R5', n, 72, 'target kind × option × value × scope cases')
+    ctx.rule('C05.R9', 'each original expression is evaluated exactly once: in the results of the interpreted visit_AnnAssign '
+             '(module scope — where the annotation of the original statement is evaluated too; compound annotation; '
+             'compound object / index expressions in the target) no compound sub-expression of the original statement is '
+             'reachable from the injected statement')
+    for (what, which), cases in sorted(single.items()):
+        bad = [(t_, n_) for t_, n_ in cases if n_ is not None]
+        if (what, which) == ('annotation', 'function-scope'):
+            bad = []        # the annotation of a local variable is not evaluated by the original statement (PEP 526)
+        ctx.ob('C05.R9', f'single-evaluation:{what}:{which}', 'beartype/claw/_ast/_kind/clawastassign.py:0',
+               f'the injected check does not evaluate the {what} expression of the statement a second time ({len(cases)} cases)',
+               not bad, f'for a {bad[0][0]} target the injected statement contains the original <ast.{bad[0][1].kind}> '
+               f'{what} expression, which the original statement evaluates as well' if bad else '')
+
+
+def _placement(ctx):
+    """R7 by interpretation: where the decorator goes, per node kind × configured positions × existing decorators."""
+    from sa.fold import BoundMethod, ClassVal
+    from sa.gen import AConf
+    from . import _gen
+    repo = ctx.repo
+    F = _gen.engines(ctx)[0].f
+    IM = 'beartype.claw._ast._kind.clawastimport'
+    im = repo.mod(IM)
+    cls = F.const(IM, 'BeartypeNodeTransformerImportMixin')
+    # the placement dispatch, by role: the method of the mixin that reads both placement options
+    cands = [f for f in cls.node.body if isinstance(f, ast.FunctionDef) and
+             {'claw_decor_place_type', 'claw_decor_place_func'} <= {x.attr for x in ast.walk(f) if isinstance(x, ast.Attribute)}]
+    ctx.require(len(cands) == 1, f'anchor vanished: the decorator placement dispatch (candidates {[f.name for f in cands]})')
+    fn = cls.find(cands[0].name)
+    ctx.require(isinstance(fn, FuncVal), 'anchor vanished: the decorator placement dispatch')
+    penum = repo.mod('beartype._conf.decorplace.confplaceenum')
+
+    def place(name):
+        return F.eval_in(penum, ast.parse(f'BeartypeDecorPlace.{name}', mode='eval').body)
+    saved_stubs, saved_inst, saved_ext = dict(F.stubs), F.isinstance_hook, dict(F.ext_stubs)
+
+    def inst(obj, c):
+        if isinstance(obj, _ANode):
+            nm = getattr(c, 'name', repr(c)).split('.')[-1]
+            return nm == obj.kind or nm in ('AST', 'expr' if obj.kind in _EXPR_KINDS else 'stmt')
+        if isinstance(obj, AConf) and 'BeartypeConf' in repr(c):
+            return True
+        if isinstance(obj, bool) and isinstance(c, ClassVal):
+            return False        # a plain bool is not an instance of a repository class
+        return saved_inst(obj, c) if saved_inst else None
+    F.isinstance_hook = inst
+    for K in _EXPR_KINDS | {'keyword'}:
+        F.ext_stubs[f'ast.{K}'] = (lambda K: lambda e, a, k: _ANode(K, injected=True, **k))(K)
+    F.ext_stubs['ast.unparse'] = lambda e, a, k: 'decorator'
+    F.stubs['beartype._util.ast.utilastmunge.copy_node_metadata'] = lambda e, a, k: None
+    DEFAULT = AConf()
+    old_default = F.patch_global(IM, 'BEARTYPE_CONF_DEFAULT', DEFAULT)
+
+    class _Self(AObj):
+        def __getattr__(self, name):
+            f_ = cls.find(name)
+            if isinstance(f_, FuncVal):
+                return BoundMethod(self, f_)
+            raise AttributeError(name)
+    n = 0
+    P = {'FIRST': place('FIRST'), 'LAST': place('LAST'), 'HOSTILE': place('LAST_BEFORE_DECOR_HOSTILE')}
+    try:
+        for kind in ('FunctionDef', 'AsyncFunctionDef', 'ClassDef'):
+            for ptype, pfunc in (('FIRST', 'LAST'), ('LAST', 'FIRST'), ('HOSTILE', 'FIRST'), ('FIRST', 'HOSTILE'), ('LAST', 'HOSTILE'),
+                                 ('HOSTILE', 'LAST')):
+                for decos in ((), ('plain',), ('hostile', 'plain'), ('hostile', 'hostile'), ('plain', 'hostile')):
+                    for conf_default in (True, False):
+                        conf = DEFAULT if conf_default else AConf()
+                        conf.claw_decor_place_type, conf.claw_decor_place_func = P[ptype], P[pfunc]
+                        originals = [_ANode('Name', id=f'{d}_{i}', hostile=(d == 'hostile')) for i, d in enumerate(decos)]
+                        node = _ANode(kind, name='thing', decorator_list=list(originals))
+                        s = _Self()
+                        s._conf, s._module_name = conf, 'pkg.mod'
+                        s._scope = AObj()
+                        s._scope.beforelist = AObj()
+                        s._scope.beforelist.scoped_attr_basename_trie = {'hostile': True}
+                        s._scope.beforelist.schema_attr_basename_trie = {}
+                        s._is_node_scoped_attr_name = lambda nd: bool(getattr(nd, 'hostile', False))
+                        s._make_node_keyword_conf = lambda **k: _ANode('keyword', injected=True)
+                        try:
+                            _call_function(F, fn, [s], dict(node=node, conf=conf), 1)
+                        except (_Abort, _Raise) as ex:
+                            ctx.require(False, f'cannot interpret {fn.qual}: {ex}')
+                        n += 1
+                        after = node.decorator_list
+                        new = [x for x in after if not any(x is o for o in originals)]
+                        kept = [x for x in after if any(x is o for o in originals)]
+                        pos = ptype if kind == 'ClassDef' else pfunc
+                        lead = 0
+                        for o in originals:
+                            if not o.hostile:
+                                break
+                            lead += 1
+                        want_idx = {'FIRST': len(originals), 'LAST': 0, 'HOSTILE': lead}[pos]
+                        ok = len(new) == 1 and len(kept) == len(originals) and all(a is b for a, b in zip(kept, originals)) \
+                            and after.index(new[0]) == want_idx and (new[0].kind == ('Name' if conf_default else 'Call'))
+                        tag = f'{kind}:type={ptype}:func={pfunc}:decorators=[{",".join(decos)}]:conf={"default" if conf_default else "other"}'
+                        agg_key = f'placement:{kind}:{pos}'
+                        a_ = _PLACE_AGG.setdefault(agg_key, [0, None])
+                        a_[0] += 1
+                        if not ok and a_[1] is None:
+                            a_[1] = (f'{tag}: decorator list afterwards {after!r} (injected at '
+                                     f'{[after.index(x) for x in new]}, expected one {("Name" if conf_default else "Call")} at index {want_idx})')
+    finally:
+        F.stubs.clear()
+        F.stubs.update(saved_stubs)
+        F.isinstance_hook = saved_inst
+        F.ext_stubs.clear()
+        F.ext_stubs.update(saved_ext)
+        F.patch_global(IM, 'BEARTYPE_CONF_DEFAULT', old_default)
+    for key, (cnt, why) in sorted(_PLACE_AGG.items()):
+        ctx.ob('C05.R7', key, im.where(fn.node), f'exactly one decorator is inserted, at the position the option for this kind of '
+               f'definition prescribes, existing decorators keep their order ({cnt} cases)', why is None, why or '')
+    _PLACE_AGG.clear()
+    ctx.floor('C05.R7', n, 180, 'node kind × positions × existing decorators × configuration cases')
+
+
+_PLACE_AGG = {}
+
+
+def _helpers_locate_fresh_only(ctx, RULE):
+    """The node factories of utilastmake, interpreted on abstract original nodes: line numbers are only ever copied onto
+    nodes the factory itself created."""
+    from . import _gen
+    repo = ctx.repo
+    F = _gen.engines(ctx)[0].f
+    mm = repo.mod(MAKE)
+    saved_stubs, saved_inst, saved_ext = dict(F.stubs), F.isinstance_hook, dict(F.ext_stubs)
+    located = []
+
+    def copy(env, a, k):
+        trg = k.get('node_trg', a[1] if len(a) > 1 else None)
+        located.extend(trg if isinstance(trg, (list, tuple)) else [trg])
+    F.stubs['beartype._util.ast.utilastmunge.copy_node_metadata'] = copy
+
+    def inst(obj, c):
+        if isinstance(obj, _ANode):
+            nm = getattr(c, 'name', repr(c)).split('.')[-1]
+            return nm == obj.kind or nm in ('AST', 'expr' if obj.kind in _EXPR_KINDS else 'stmt')
+        return saved_inst(obj, c) if saved_inst else None
+    F.isinstance_hook = inst
+    import ast as _ast
+    for K in [k for k in dir(_ast) if isinstance(getattr(_ast, k), type) and issubclass(getattr(_ast, k), _ast.AST)]:
+        F.ext_stubs[f'ast.{K}'] = (lambda K: lambda e, a, k: _ANode(K, fresh=True, **k))(K)
+    n = 0
+    try:
+        for name, fv in sorted(F.module_env(MAKE).items()):
+            if not (isinstance(fv, FuncVal) and fv.module == MAKE and name.startswith('make_node_')):
+                continue
+            a = fv.node.args
+            params = a.posonlyargs + a.args + a.kwonlyargs
+            if any(p.arg == 'code_snippet' for p in params):
+                continue            # parses text: creates a whole tree, takes no original node
+            originals = []
+
+            def orig(kind='Name'):
+                o = _ANode(kind, id='original', fresh=False)
+                originals.append(o)
+                return o
+            kw = {}
+            for p in params:
+                ann = ast.unparse(p.annotation) if p.annotation is not None else ''
+                if p.arg == 'node_sibling':
+                    kw[p.arg] = orig('Assign')
+                elif ann.startswith('List[') or ann.startswith('list['):
+                    kw[p.arg] = [orig('keyword' if 'keyword' in ann else 'Name'), orig('keyword' if 'keyword' in ann else 'Name')]
+                elif ann in ('str',):
+                    kw[p.arg] = 'name'
+                elif 'Optional[str]' in ann:
+                    continue
+                elif 'AST' in ann or 'expr' in ann:
+                    kw[p.arg] = orig('Name')
+            if a.kwarg is not None and not any(isinstance(v, list) for v in kw.values()):
+                # a pass-through factory (make_node_call_expr): give it what the factory it wraps takes
+                kw.update(func_name='name', nodes_args=[orig('Name')], nodes_kwargs=[orig('keyword')])
+            del located[:]
+            try:
+                out = _call_function(F, fv, [], kw, 1)
+            except (_Abort, _Raise) as ex:
+                ctx.require(False, f'cannot interpret {fv.qual}: {ex}')
+            n += 1
+            bad = [x for x in located if any(x is o for o in originals)]
+            ctx.ob(RULE, f'factory:{name}:locates-only-what-it-creates', mm.where(fv.node),
+                   'line and column numbers are copied only onto nodes the factory created, never onto the nodes of the '
+                   'original module it was handed (which keep their own positions)', not bad,
+                   f'copies the position of the sibling statement onto {bad[:2]} (an argument of the factory: a node of the '
+                   f'original tree)')
+            ctx.ob(RULE, f'factory:{name}:locates-its-result', mm.where(fv.node), 'the node returned by the factory is located',
+                   any(x is out for x in located) or not isinstance(out, _ANode) or not getattr(out, 'fresh', False),
+                   f'returns {out!r} without position')
+    finally:
+        F.stubs.clear()
+        F.stubs.update(saved_stubs)
+        F.isinstance_hook = saved_inst
+        F.ext_stubs.clear()
+        F.ext_stubs.update(saved_ext)
+    ctx.require(n >= 7, f'{RULE}: only {n} node factories of utilastmake were interpreted (7 confirmed by reading)')
